@@ -500,6 +500,26 @@ def purity_clause(model, rep, funcs):
                stmt=(None if effs else f"def {name} pure"))
 
 
+def filter_paths_clause(model, rep, funcs):
+    """Molecules.filter selects rows with polars' own filter on the assembled table, for every kind of predicate the signature admits (expression, column name,
+    boolean Series with nulls, list, array): a null is "not selected" there.  Every returning path must hand the predicate to `DataFrame.filter`; a side path that
+    converts the predicate itself (`np.asarray(predicate)`) has other semantics for nulls and non-boolean input."""
+    f = funcs.get(MC + "filter")
+    if f is None:
+        return
+    M = Matcher(f)
+    pn = f.param_names()[1] if len(f.param_names()) > 1 else "predicate"
+    rets = [r for r in walk_no_nested(f.node) if isinstance(r, ast.Return) and r.value is not None]
+    for r in rets:
+        rep.instance("SLOT.filter", f.loc(r))
+        ex = M.expr(r.value)
+        through = any(isinstance(c, ast.Call) and isinstance(c.func, ast.Attribute) and c.func.attr == "filter" and
+                      any(isinstance(x, ast.Name) and x.id == pn for a_ in list(c.args) + [k.value for k in c.keywords] for x in ast.walk(a_)) for c in ast.walk(ex))
+        rep.ob("SLOT", f.anchor, "every path of filter() selects the rows with DataFrame.filter(predicate)", through,
+               f"`{norm_src(r)[:70]}` does not pass `{pn}` through DataFrame.filter: nulls in a boolean mask and non-boolean input are treated differently on this path",
+               node=r, fn=f, clause="features")
+
+
 def helper_column_clause(model, rep):
     """TMPCOL.  A helper column that a Molecules method adds next to the user's feature columns (`expr.alias(name)` then `with_columns`) must have a name no user
     feature carries: polars replaces an existing column of that name, so the user's feature would be overwritten (and dropped with the helper afterwards).  A fixed
@@ -548,4 +568,5 @@ def check(model, rep, tier):
     guards_clause(model, rep, funcs)
     purity_clause(model, rep, funcs)
     helper_column_clause(model, rep)
+    filter_paths_clause(model, rep, funcs)
     partition_clause(model, rep, {"acryo/loader/_group.py::LoaderGroupByIterator.__iter__": None})
